@@ -2,6 +2,7 @@
 // Generated JSGF ASTs are printed with random layout, compiled by the library,
 // and the bounded language of the produced FSG is compared with the bounded
 // language of the grammar seen as a context-free grammar (least fixpoint).
+#include <functional>
 #include "common/fsa.h"
 #include "common/jsgfgen.h"
 #include "common/pbt.h"
@@ -179,6 +180,45 @@ Verdict propJsgf(Choices &c, Ctx &ctx) {
   std::string text = pr.grammar(g);
   ctx.desc = text;
   float lw = (float[]){1.0f, 6.5f, 9.5f, 0.5f}[c.weighted({4, 2, 1, 1})];
+
+  // --- known finding, excluded by construction and counted: the null-transition closure takes time cubic in the
+  // number of expanded states (known_findings.txt, C10 timeout:*fsg_model_null_trans_closure*); a grammar whose
+  // expansion has thousands of states (a rule with repetitions referenced many times) compiles for minutes
+  {
+    std::map<std::string, double> memo;
+    std::set<std::string> open;
+    std::function<double(const Node &)> size = [&](const Node &nd) -> double {
+      switch (nd.k) {
+      case Node::TOK: case Node::NUL: case Node::VOID_: return 1;
+      case Node::REF: {
+        if (open.count(nd.s)) return 1; // recursion links back, it does not expand again
+        auto it = memo.find(nd.s);
+        if (it != memo.end()) return it->second;
+        double r = 1;
+        for (auto &rule : g.rules)
+          if (rule.name == nd.s) {
+            open.insert(nd.s);
+            r = size(rule.body);
+            open.erase(nd.s);
+          }
+        return memo[nd.s] = r;
+      }
+      default: {
+        double r = 2;
+        for (auto &kid : nd.kids) r += size(kid);
+        return r;
+      }
+      }
+    };
+    Node root;
+    root.k = Node::REF;
+    root.s = "r0";
+    double est = size(root);
+    if (est > 1200) {
+      ctx.label("excluded:expansion>1200-states(known-null-closure-blow-up)");
+      return Verdict::pass();
+    }
+  }
 
   // --- reference language ---
   size_t n = g.words.size();
